@@ -1009,6 +1009,10 @@ def run(ctx):
     syn = kit.parallel_map(run_synthetic, [{"seed": ctx.seed * 7919 + i, "n": 30 if ctx.tier == "quick" else 120} for i in range(4)], nproc=4)
     compare_probes(ctx, [p for ch in syn for p in ch])
     ctx.cov["policies"] = {"resume": "BITWISE", "model": "EXACT"}
+    d = ctx.cov["distribution"]
+    ctx.notes.append(f"informational (not a violation, DESIGN §5 C14): of the eager updates fed the raw read-only numpy leaves that from_bytes "
+                     f"returns, {d.get('numpy_fed_bit_equal', 0)} were bit-identical to the uninterrupted run and {d.get('numpy_fed_ulp_diff', 0)} "
+                     "differed (XLA folds numpy leaves closed over by lax.cond branches as constants); with jax.Array leaves all runs are bit-identical")
 
 
 def replay(ctx, data):
